@@ -197,7 +197,8 @@ def ensure_built():
         except SyntaxError as e:
             info['ok'] = False
             info['failures'].append({'stage': 'translator', 'error': 'source does not parse: %s' % e})
-        if not os.path.exists(os.path.join(COQ, 'Makefile')):
+        mk, cp = os.path.join(COQ, 'Makefile'), os.path.join(COQ, '_CoqProject')
+        if not os.path.exists(mk) or os.path.getmtime(mk) < os.path.getmtime(cp):
             subprocess.run(['coq_makefile', '-f', '_CoqProject', '-o', 'Makefile'], cwd=COQ, capture_output=True)
         p = subprocess.run(['timeout', '1500', 'make', '-k', '-j16'], cwd=COQ, capture_output=True, text=True)
         if p.returncode != 0:
